@@ -67,6 +67,10 @@ def main_for(pid, tier, replay=None):
         small = [n for n in names if n not in ("ilLyoCler1_2", "ngHelPoly1")]
         spec = [{"specimen": n, "tid": len(traces) + 1 + k} for k, n in enumerate(small if tier == "quick" else small)]
         traces += C.pmap("harness.remap_engine", "run_specimen", spec, chunk=1)
+    # conservation through the files the command line tool writes (an assembly left out of the written set loses sequence silently)
+    if pid == "C01":
+        jobs = [{"root": str(run.sub("cli")), "cfg": c, "tid": len(traces) + 1 + k} for k, c in enumerate(("single", "multi", "twohap", "cut", "recurate"))]
+        traces += C.pmap("harness.cli_engine", "cli_remap_case", jobs, chunk=1)
     jr = R.judge(run, traces, [pid, "MODEL"])
     by = {t["tid"]: t for t in traces}
     # design level: the pipeline model against the same predicates (one texel size in the quick tier)
@@ -85,7 +89,7 @@ def main_for(pid, tier, replay=None):
         status[t["status"]] = status.get(t["status"], 0) + 1
     rev = sum(1 for t in traces if any(r["k"] == "F" and r["st"] == -1 for s in t["input"] for r in s["rows"]))
     smp = traces[len(scen) // 2]
-    cov_spec = [t["msg"] + ":" + t["status"] for t in traces if t["cls"] == "specimen"]
+    cov_spec = [t["msg"] + ":" + t["status"] for t in traces if t["cls"] == "specimen"] + [t["cls"] + ":" + t["status"] for t in traces if t["cls"].startswith("cli/")]
     cov = {
         "states": sum(e["model_states"] for e in exports) + sum(m["states"] for m in mcs),
         "transitions": sum(e["model_transitions"] for e in exports) + sum(m["generated"] for m in mcs),
